@@ -523,7 +523,7 @@ PROPERTIES = {
             "the closing quote lands where it should; quote, backslash and all control bytes are escaped and nothing else is. "
             "OUT1/OUT2: every output write goes through an ensure() result and stays within the request. OUT8: no capacity request "
             "is made while bytes written under an earlier one are not yet covered by ->offset (ensure may move the buffer and "
-            "preserves only what ->offset covers); may-dataflow, independent of the length arithmetic. OUT3: at every next "
+            "preserves only what ->offset covers - read off ensure()'s own copy), and no print entry point reads ->offset (or hands the buffer to a reader of it) after a printer returned with its last token not yet covered; may-dataflow, independent of the length arithmetic. OUT3: at every next "
             "request/printer call the offset has been advanced by exactly the bytes written before the terminator, which is "
             "the condition under which ensure()'s realloc branch and its allocate+memcpy(offset+1)+free branch preserve the "
             "same bytes (independence from realloc availability and from the initial buffer size). TAB2: print() returns "
@@ -612,7 +612,7 @@ PROPERTIES = {
             "a test of the ownership bit that describes that memory, on the same node, with no store to that node's type "
             "between entry and the test. OWN6: the key parameter is not read after the item's own key was released (the key "
             "may alias it). OWN4: no block is released twice or used after release on any path (typestate engine), and a "
-            "released field of longer-lived memory is overwritten before return. DBL1: blocks the function did not allocate itself (a field of "
+            "released field of longer-lived memory is overwritten before return, and a block is not released while an object of the caller that it was stored into still points at it. OWN9: a store that clears an ownership bit is followed path by path - the payload the bit describes is a fresh copy, NULL, a pointer taken from another node under the clear edge of that node's bit, or the node was created in the function. DBL1: blocks the function did not allocate itself (a field of "
             "a parameter, the print buffer): between two releases of the same access path on a feasible path (conditions passed are "
             "remembered) the path is assigned; a successful reallocate counts as a release of its argument. OWN2/OWN3: what a function allocates it "
             "releases, links or returns on every path, including the failure outcomes of consume-on-success callees whose "
@@ -847,7 +847,7 @@ PROPERTIES = {
             "generate_merge_patch and compare_json store through nothing derived from their inputs. OWN2 (allocation failure not "
             "modelled): in merge_patch the detached member is consumed by the recursive call on every path and the target is "
             "released on the failure exit; generate_merge_patch releases the empty patch object. TAB20: the merge walk orders keys "
-            "with strcmp/compare_strings only.",
+            "with strcmp/compare_strings only. MRG1-4: patch values copied verbatim only when not objects, members removed only under a null patch value, member operations only on a target known to be an object, and what enters the target goes in through a keyed insertion named by the patch member.",
         'not_decided': ['the RFC 7396 result itself (null deletes, non-object replaces, recursion) - semantic, not '
                         'approximated'],
     },
